@@ -74,6 +74,15 @@ def dot [Mul α] [Add α] (a b : V3 α) : α := a.x * b.x + a.y * b.y + a.z * b.
 def cross [Mul α] [Sub α] (a b : V3 α) : V3 α :=
   ⟨a.y * b.z - a.z * b.y, a.z * b.x - a.x * b.z, a.x * b.y - a.y * b.x⟩
 def map {β : Type} (f : α → β) (a : V3 α) : V3 β := ⟨f a.x, f a.y, f a.z⟩
+/-- the reading of a left-handed sensor: `B[..., pix_slice, 0] *= -1` of getBH_level2 (every driver uses this definition) -/
+def flipX [Neg α] (a : V3 α) : V3 α := ⟨-a.x, a.y, a.z⟩
+/-- `v[axis] *= c` as numpy runs it on the last axis of length 3 (an axis beyond 2 does not exist there) -/
+def scaleComp [Mul α] (axis : Nat) (c : α) (a : V3 α) : V3 α :=
+  match axis with
+  | 0 => ⟨a.x * c, a.y, a.z⟩
+  | 1 => ⟨a.x, a.y * c, a.z⟩
+  | 2 => ⟨a.x, a.y, a.z * c⟩
+  | _ => a
 end V3
 
 /-- 3×3 matrices (rows) -/
